@@ -459,6 +459,32 @@ impl<'de> serde::Deserialize<'de> for DupCheck {
     }
 }
 
+/// The response type inside an application's own wrapper: serde then replays the document from its
+/// buffered form (explicit nulls arrive as units, strings as owned or borrowed content, ...).
+#[derive(Deserialize)]
+#[serde(untagged, bound = "T: serde::de::DeserializeOwned")]
+enum Untagged<T> {
+    It(T),
+}
+
+/// a writer that accepts `room` bytes and then fails
+struct Limited {
+    room: usize,
+}
+impl std::io::Write for Limited {
+    fn write(&mut self, buf: &[u8]) -> std::io::Result<usize> {
+        if self.room == 0 {
+            return Err(std::io::Error::new(std::io::ErrorKind::WriteZero, "full"));
+        }
+        let n = buf.len().min(self.room);
+        self.room -= n;
+        Ok(n)
+    }
+    fn flush(&mut self) -> std::io::Result<()> {
+        Ok(())
+    }
+}
+
 /// `DECODE family ef text urltab`
 pub fn decode(ws: &[&str]) -> String {
     if ws.len() != 4 {
@@ -484,6 +510,37 @@ pub fn decode(ws: &[&str]) -> String {
             };
             if rd != main {
                 return format!("paths-differ reader={}", tok_bytes(rd.as_bytes()));
+            }
+            // inside an application's untagged wrapper (flattened families only: the plain error
+            // struct skips unknown members without buffering them, a wrapper buffers everything)
+            if !ws[0].starts_with("err-") {
+                let wrapped = match serde_json::from_slice::<Untagged<$t>>(&text) {
+                    Ok(Untagged::It(v)) => format!("ok {} ", $r(&v)),
+                    Err(_) => "err".to_string(),
+                };
+                let same = if wrapped == "err" { main == "err" } else { main.starts_with(&wrapped) };
+                if !same {
+                    return format!("paths-differ untagged-wrapper={}", tok_bytes(wrapped.as_bytes()));
+                }
+            }
+            // a serialisation that FAILS part-way (the writer runs out of room at every prefix
+            // length) must leave nothing behind: serialising again gives the same text
+            if let Ok(v) = serde_json::from_slice::<$t>(&text) {
+                let j = serde_json::to_vec(&v).unwrap();
+                if j.len() <= 400 {
+                    let step = (j.len() / 48).max(1);
+                    let mut room = 0;
+                    while room < j.len() {
+                        if serde_json::to_writer(Limited { room }, &v).is_ok() {
+                            return format!("failing-writer-succeeded room={}", room);
+                        }
+                        let again = serde_json::to_vec(&v).unwrap();
+                        if again != j {
+                            return format!("serialisation-depends-on-history room={} first={} again={}", room, tok_bytes(&j), tok_bytes(&again));
+                        }
+                        room += step;
+                    }
+                }
             }
             if let (Ok(DupCheck(false)), Ok(val)) = (serde_json::from_slice::<DupCheck>(&text), serde_json::from_slice::<serde_json::Value>(&text)) {
                 let via = match serde_json::from_value::<$t>(val) {
@@ -512,6 +569,20 @@ pub fn decode(ws: &[&str]) -> String {
             "device" => dm!(DeviceAuthorizationResponse<ExtMap>, render_dev),
             _ => BAD.into(),
         };
+    }
+    // BasicTokenType on its own (an application's token response may hold one directly): what it reads
+    // it writes back verbatim, and reading that gives an equal value
+    if ws[1] == "E" && (ws[0] == "token" || ws[0] == "introspection") {
+        if let Ok(serde_json::Value::Object(m)) = serde_json::from_slice::<serde_json::Value>(&text) {
+            if let Some(serde_json::Value::String(tt)) = m.get("token_type") {
+                let direct: BasicTokenType = serde_json::from_value(serde_json::Value::String(tt.clone())).unwrap();
+                let back = serde_json::to_value(&direct).unwrap();
+                let again: BasicTokenType = serde_json::from_value(back.clone()).unwrap();
+                if back != serde_json::Value::String(tt.clone()) || again != direct || direct.as_ref() != tt.as_str() {
+                    return format!("direct-token-type-roundtrip-differs read={} written={}", tok_bytes(tt.as_bytes()), tok_bytes(back.to_string().as_bytes()));
+                }
+            }
+        }
     }
     if ws[1] == "E" && ws[0] == "token" {
         if let Ok(v) = serde_json::from_slice::<BasicTokenResponse>(&text) {
